@@ -37,7 +37,7 @@ AppReqs == {[k |-> "AppRequest", peer |-> p, addr |-> HomeSock(p), rid |-> r, en
 AppResps == {[k |-> "AppResponse", peer |-> x.id, addr |-> x.addr, xid |-> x.rid, body |-> "pong"] : x \in xreq}
 AppWrus == UNION {{[k |-> "AppWhoAreYou", ref |-> env.wru[i].ref, rec |-> r] : r \in {"none", Name(env.wru[i].a.id \o ":", 1)}} : i \in 1..Len(env.wru)}
 Randoms == {[k |-> "PeerRandom", party |-> p, from |-> HomeSock(p), claim |-> p] : p \in PEERS}
-           \cup (IF DEPTH > 0 THEN {[k |-> "PeerRandom", party |-> p, from |-> HomeSock(p) \o "b", claim |-> p] : p \in PEERS} ELSE {})   \* from the other port (simulation)
+           \cup (IF DEPTH > 0 \/ "sib" \in MSGSEL THEN {[k |-> "PeerRandom", party |-> p, from |-> HomeSock(p) \o "b", claim |-> p] : p \in PEERS} ELSE {})   \* from the other port
            \cup (IF ATTACKER THEN {[k |-> "PeerRandom", party |-> "A", from |-> "aA", claim |-> c] : c \in PEERS} ELSE {})
 \* WHOAREYOU from a party for a datagram the node sent to one of the sockets that party can see
 \* (also from the other port of the same IP address: a1 <-> a1b, ...: such a WHOAREYOU does not come from where the datagram went)
@@ -212,6 +212,11 @@ GoalLateEnrAnswer == ~(last.lateInt /\ \E i \in 1..Len(h.ev) : h.ev[i].e = "Esta
 \* the attacker answers a challenge meant for a known node with bytes that are no signature at all
 GoalJunkSigHs == ~(last.in.k = "PeerHandshake" /\ last.in.party = "A" /\ last.in.claim # "A" /\ last.in.sig \in {"zero64", "junk0", "junk63"}
                    /\ last.rin.k = "hs" /\ HasChal(h, Addr(last.rin.src, last.rin.from)))
+\* a correctly signed handshake whose record advertises another socket than it came from (the session is established, the record
+\* reported unverifiable) is presented a second time: its challenge was consumed by the first
+GoalReplayUnverifiableHs == ~(last.in.k = "Replay" /\ last.rin.k = "hs" /\ Len(hist) >= 2
+                              /\ hist[Len(hist) - 1].k = "PeerHandshake" /\ hist[Len(hist) - 1].sig = "own" /\ hist[Len(hist) - 1].rec # "none"
+                              /\ hist[Len(hist) - 1].from = HomeSock(hist[Len(hist) - 1].party) \o "b" /\ last.in.from = hist[Len(hist) - 1].from)
 GoalBadSigKeepsChallenge == ~(last.rin.k = "hs" /\ last.rin.signer = "bad" /\ HasChal(h, Addr(last.rin.src, last.rin.from)))
 GoalReplayedHs  == ~(last.in.k = "Replay" /\ last.rin.k = "hs" /\ Len(h.sessq) >= 1)
 =============================================================================
